@@ -13,6 +13,10 @@ int  vf_main(int argc, char** argv, void (*scenario)(void));
 // in-process explorer for single-threaded harnesses: scenario(case_index) is re-executed in this process
 int  vf_main_cases(int argc, char** argv, long ncases, void (*scenario)(long));
 
+// harness-owned explicit-state search (BFS over event histories on real objects): the harness fills the counters
+struct vf_custom_result { long states, transitions, executions, distinct; int depth; int exhaustive; char violation[512]; char trace[1024]; char samples[4][512]; int nsamples; };
+int  vf_main_custom(int argc, char** argv, void (*search)(struct vf_custom_result*));
+
 // ---- scenario parameters (-p key=value on the command line)
 const char* vf_param(const char* key, const char* dflt);
 long        vf_param_int(const char* key, long dflt);
